@@ -17,6 +17,10 @@ package check
 
 //@ axiom zeroexpr: zeroExpr != nil && wval(zeroExpr) == 0
 
+// binop(op, x, y): the meaning of a binary operator (uninterpreted except for the cases below).
+//@ ghost binop(op t.ID, x mathint, y mathint) mathint
+//@ axiom binopdef(x mathint, y mathint): binop(t.IDXBinaryPlus, x, y) == x + y && binop(t.IDXBinaryMinus, x, y) == x - y && binop(t.IDXBinaryStar, x, y) == x * y && binop(t.IDXBinaryNotEq, x, y) == ite(x != y, 1, 0) && binop(t.IDXBinaryLessThan, x, y) == ite(x < y, 1, 0) && binop(t.IDXBinaryLessEq, x, y) == ite(x <= y, 1, 0) && binop(t.IDXBinaryEqEq, x, y) == ite(x == y, 1, 0) && binop(t.IDXBinaryGreaterEq, x, y) == ite(x >= y, 1, 0) && binop(t.IDXBinaryGreaterThan, x, y) == ite(x > y, 1, 0)
+
 // parseBinaryOp decomposes n as "lhs op rhs"; the ensures clauses are the meaning
 // of the comparison and arithmetic operators (language definition, assumed).
 //@ func parseBinaryOp
@@ -24,7 +28,8 @@ package check
 //@   trusted semantics of binary operators: wval(n) is the operator applied to wval(lhs), wval(rhs)
 //@   pure
 //@   requires n != nil
-//@   ensures implies(op != 0, lhs != nil && rhs != nil)
+//@   ensures implies(op != 0, lhs != nil && rhs != nil && op == opOf(n) && wval(n) == binop(op, wval(lhs), wval(rhs)))
+//@   ensures implies(op == 0, lhs == nil && rhs == nil)
 //@   ensures implies(op == t.IDXBinaryNotEq || op == t.IDXBinaryLessThan || op == t.IDXBinaryLessEq || op == t.IDXBinaryEqEq || op == t.IDXBinaryGreaterEq || op == t.IDXBinaryGreaterThan, wval(n) == ite(holds(op, wval(lhs), wval(rhs)), 1, 0))
 //@   ensures implies(op == t.IDXBinaryPlus, wval(n) == wval(lhs) + wval(rhs))
 //@   ensures implies(op == t.IDXBinaryMinus, wval(n) == wval(lhs) - wval(rhs))
@@ -135,3 +140,25 @@ package check
 //@   loop 1 invariant -1 <= rangeindex && rangeindex < len(z) && forall(k, 0, len(z), z[k] != nil) && unchanged(mem(z))
 //@   loop 1 invariant nb[0] != nil && nb[1] != nil && implies(allHold(z) && inB(atentry(1, nb), wval(n)), inB(nb, wval(n)))
 //@   loop 1 decreases len(z) - rangeindex
+
+// ---- simplify: rewriting an expression keeps its value ----
+// Assumed (language semantics of constant expressions): folding a binary operator
+// over two constant operands gives the expression's value; a constant-value
+// expression node denotes its value.
+//@ func evalConstValueBinaryOp
+//@   prop C02 C01
+//@   trusted constant folding implements the operators' meaning on constants (assumed: the language definition)
+//@   pure
+//@   requires n != nil && l != nil && r != nil
+//@   ensures implies(result1 == nil, result0 != nil && bigval(result0) == binop(opOf(n), bigval(l), bigval(r)))
+
+//@ func makeConstValueExpr
+//@   prop C02 C01
+//@   trusted a constant-value expression node denotes its value (assumed: the language definition)
+//@   requires cv != nil
+//@   ensures implies(result1 == nil, result0 != nil && fresh(result0) && wval(result0) == bigval(cv))
+
+//@ func simplify
+//@   prop C02 C01
+//@   requires n != nil
+//@   ensures[value] implies(result1 == nil, result0 != nil && wval(result0) == wval(n))
